@@ -32,11 +32,11 @@ ASSUMPTIONS = [
     "equality across families is only required where both operands resolve without further information",
 ]
 
-AMOUNTS = ["0", "1", "-1", "2.5", "1e3", "1e-3", ".5", "+3", "7e-1", "12", "16", "25.4", "72", "96"]
+AMOUNTS = ["0", "1", "-1", "2.5", "1e3", "1e-3", ".5", "+3", "7e-1", "12", "16", "25.4", "72", "96", "1.5e+2", "1E+1", "2e+0", "+.5E+1"]
 PAIR_AMTS = ["0", "1", "-2.5", "3", "12", "25.4", "1e-5", "2e-5"]
 AMOUNTS_T = ["-0", "0.0", "1e5", "-1e5", "3.14159265358979", "1e-9", "-7.25", "100", "1000", "0.001", "6", "2.54", "10", "33.333333333333"]
 RELS = [None, ("num", 200), ("numstr", "200"), ("str", "50mm"), ("len", "3in"), ("len", "40"), ("num", 0), ("num", -80),
-        ("numstr", "0"), ("str", "2ex"), ("len", "1.5em"), ("str", "3pc")]
+        ("numstr", "0"), ("str", "2ex"), ("len", "1.5em"), ("str", "3pc"), ("str", "20vw"), ("len", "10vmin"), ("str", "1e+1px")]
 FULL = dict(ppi=96, rel=F(200), font_size=16, font_height=8, viewbox=(F(0), F(0), F(200), F(100)))
 FULL_KW = dict(ppi=96, relative_length=200, font_size=16, font_height=8, viewbox="0 0 200 100")
 
